@@ -201,6 +201,8 @@ impl RunCfg {
                 cfg.w_pub = ch.range(4, 10);
                 cfg.w_burst = ch.range(1, 4);
                 cfg.big_burst = ch.coin(1, 3);
+                // retained replays take window slots too
+                cfg.retained = ch.coin(1, 3);
                 if cfg.sub_qos_mix[1] + cfg.sub_qos_mix[2] == 0 {
                     cfg.sub_qos_mix[1] = 2;
                 }
